@@ -195,6 +195,8 @@ def cfg_flags(cfgstr):
 def build_harness(name, defines=None, sanitize="address,undefined", std="c++17", extra="", opt="-O1"):
     defines = dict(defines or {})
     defines.setdefault("ARDUINOJSON_DEBUG", 1)
+    if os.environ.get("VERIF_COV"):      # tools/coverage.sh: which lines of /repo/src do the checks execute at all
+        sanitize, opt, extra = "", "-O0 --coverage", extra + " -DVERIF_COVERAGE_BUILD"
     dflags = " ".join(f"-D{k}={v}" for k, v in sorted(defines.items()))
     src = os.path.join(ROOT, "harness", name + ".cpp")
     hdrs = tree_files(os.path.join(ROOT, "harness"), (".hpp",))
